@@ -209,6 +209,12 @@ func (g *Globals) load(e *Eval, gl *ssa.Global, t types.Type) AV {
 	}
 	switch u := t.Underlying().(type) {
 	case *types.Map:
+		if cm, ok := g.Init[gl].(CMapV); ok {
+			if mc, ok := g.Objs[cm.O].(MapC); ok && mc.Top == "" {
+				e.Relied[gl] = true
+				return cm
+			}
+		}
 		return MapV{G: gl}
 	case *types.Pointer:
 		if isBigInt(u.Elem()) {
